@@ -456,6 +456,7 @@ pub fn run_case(rng: &mut Rng, profile: &str) -> CaseOut {
         }
     }
     let mut log = vec![];
+    let semantic_only: Vec<bool> = (0..h.terms.len()).map(|_| rng.chance(1, 3)).collect();
     let mut eg: EGraph<LSym> = EGraph::default();
     let mut ids: BTreeMap<usize, AppliedId> = BTreeMap::new();
     let mut asserted_raw: Vec<(AppliedId, AppliedId, String)> = vec![];
@@ -464,15 +465,27 @@ pub fn run_case(rng: &mut Rng, profile: &str) -> CaseOut {
         for op in &h.ops {
             match op {
                 HOp::Add(i) => {
-                    log.push(format!("add_syn_expr {}", h.terms[*i].text(lang, &pname)));
-                    ids.insert(*i, eg.add_syn_expr(to_rec::<LSym>(lang, &h.terms[*i])));
+                    // a third of the terms is inserted semantically only: their syntactic classes come into being when they are explained
+                    if semantic_only[*i] {
+                        log.push(format!("add_expr {}", h.terms[*i].text(lang, &pname)));
+                        ids.insert(*i, eg.add_expr(to_rec::<LSym>(lang, &h.terms[*i])));
+                    } else {
+                        log.push(format!("add_syn_expr {}", h.terms[*i].text(lang, &pname)));
+                        ids.insert(*i, eg.add_syn_expr(to_rec::<LSym>(lang, &h.terms[*i])));
+                    }
                 }
                 HOp::Union(a, b) => {
                     for t in [a, b] {
                         if !ids.contains_key(t) {
-                            log.push(format!("add_syn_expr {}", h.terms[*t].text(lang, &pname)));
-                            let id = eg.add_syn_expr(to_rec::<LSym>(lang, &h.terms[*t]));
-                            ids.insert(*t, id);
+                            if semantic_only[*t] {
+                                log.push(format!("add_expr {}", h.terms[*t].text(lang, &pname)));
+                                let id = eg.add_expr(to_rec::<LSym>(lang, &h.terms[*t]));
+                                ids.insert(*t, id);
+                            } else {
+                                log.push(format!("add_syn_expr {}", h.terms[*t].text(lang, &pname)));
+                                let id = eg.add_syn_expr(to_rec::<LSym>(lang, &h.terms[*t]));
+                                ids.insert(*t, id);
+                            }
                         }
                     }
                     let j = format!("u{k}");
@@ -504,9 +517,25 @@ pub fn run_case(rng: &mut Rng, profile: &str) -> CaseOut {
     let mut asserted: Vec<(Tm, Tm, String)> = vec![];
     {
         let mut ck = Checker::new(&eg, &[], &[]);
+        // the asserted equation is between the syntactic terms of the two handles' classes; a handle obtained by semantic insertion
+        // may lack the redundant arguments of its class: they are completed with new names (what union_justified does internally)
+        let syn_text = |a: &AppliedId| -> String {
+            let mut a = a.clone();
+            for _ in 0..32 {
+                match guard(|| eg.get_syn_expr(&a).to_string()) {
+                    Ok(t) => return t,
+                    Err(p) => {
+                        // "SlotMap::index($f11): index missing!" names the class slot that has no argument yet
+                        let Some(name) = p.msg.split("index($").nth(1).and_then(|x| x.split(')').next()) else { break };
+                        a.m.insert(Slot::named(name), Slot::fresh());
+                    }
+                }
+            }
+            format!("<unrenderable {a:?}>")
+        };
         for (a, b, j) in &asserted_raw {
-            let sa = eg.get_syn_expr(a).to_string();
-            let sb = eg.get_syn_expr(b).to_string();
+            let sa = syn_text(a);
+            let sb = syn_text(b);
             asserted.push((ck.user_term(&sa).canon(), ck.user_term(&sb).canon(), j.clone()));
         }
     }
@@ -522,10 +551,62 @@ pub fn run_case(rng: &mut Rng, profile: &str) -> CaseOut {
     }
     rng.shuffle(&mut pairs_q);
     pairs_q.truncate(8);
-    let mut nontrivial = false;
+    // the queried terms: inserted terms in either orientation, and terms that were never inserted as such: an inserted term with a
+    // closed subterm replaced by a term that was united with it (represented, equal, but without a syntactic class of its own)
+    let mut queries: Vec<(Tm, Tm)> = vec![];
     for (a, b) in pairs_q {
-        let (ta, tb) = (h.terms[a].text(lang, &pname), h.terms[b].text(lang, &pname));
-        let (ra, rb) = (to_rec::<LSym>(lang, &h.terms[a]), to_rec::<LSym>(lang, &h.terms[b]));
+        if rng.chance(1, 2) {
+            queries.push((h.terms[a].clone(), h.terms[b].clone()));
+        } else {
+            queries.push((h.terms[b].clone(), h.terms[a].clone()));
+        }
+    }
+    for (a, b, _) in asserted_raw.iter().take(4) {
+        let (ia, ib) = (ids.iter().find(|(_, v)| *v == a).map(|x| *x.0), ids.iter().find(|(_, v)| *v == b).map(|x| *x.0));
+        if let (Some(ia), Some(ib)) = (ia, ib) {
+            for (&k, _) in ids.iter() {
+                if k == ia || k == ib {
+                    continue;
+                }
+                fn repl(t: &Tm, from: &Tm, to: &Tm, done: &mut bool, bound: &mut Vec<Name>) -> Tm {
+                    if !*done && t.canon() == from.canon() && t.fv().iter().all(|n| !bound.contains(n)) && to.fv().iter().all(|n| !bound.contains(n)) {
+                        *done = true;
+                        return to.clone();
+                    }
+                    let mut kids = vec![];
+                    for (bs, kk) in &t.kids {
+                        let n = bound.len();
+                        bound.extend(bs.iter().copied());
+                        kids.push((bs.clone(), repl(kk, from, to, done, bound)));
+                        bound.truncate(n);
+                    }
+                    Tm { op: t.op, slots: t.slots.clone(), kids, pay: t.pay.clone() }
+                }
+                let mut done = false;
+                let t2 = repl(&h.terms[k], &h.terms[ia], &h.terms[ib], &mut done, &mut vec![]);
+                if done && t2.canon() != h.terms[k].canon() && queries.len() < 12 {
+                    if rng.chance(1, 2) {
+                        queries.push((h.terms[k].clone(), t2));
+                    } else {
+                        queries.push((t2, h.terms[k].clone()));
+                    }
+                    out.inc("queries_with_uninserted_term");
+                }
+            }
+        }
+    }
+    let mut nontrivial = false;
+    for (qa, qb) in queries {
+        let (ta, tb) = (qa.text(lang, &pname), qb.text(lang, &pname));
+        let (ra, rb) = (to_rec::<LSym>(lang, &qa), to_rec::<LSym>(lang, &qb));
+        // only equal terms can be explained (the swapped-in variants are equal by congruence; checked through the public API)
+        let eq_now = match (lookup_rec_expr(&ra, &eg), lookup_rec_expr(&rb, &eg)) {
+            (Some(x), Some(y)) => eg.eq(&x, &y),
+            _ => false,
+        };
+        if !eq_now {
+            continue;
+        }
         let p = match guard(|| eg.explain_equivalence(ra.clone(), rb.clone())) {
             Ok(p) => p,
             Err(pi) => {
